@@ -658,8 +658,9 @@ func genC01(c *Ctx) {
 		c.Count("fixed texts")
 	}
 	// validity only: lone surrogates (outside the domain of the byte-level comparison)
-	for _, t := range []string{`"\ud800"`, `"\udc00"`, `"\ud800x"`, `"\ud800\u0041"`, `"\udc00\ud800"`, `{"\ud800":1}`} {
+	for _, t := range []string{`"\ud800"`, `"\udc00"`, `"\ud800x"`, `"\ud800\u0041"`, `"\udc00\ud800"`, `{"\ud800":1}`, `"\udbff"`, `"\ud800\n"`, `"\ud800\\"`, `"\ud800\""`, `["\udfff",-0]`, `"\ud800\ud800\udc00"`, `"\ud83d\ud83d"`} {
 		c.Run("C01.valid", Args(t), "C01.valid", "", "lone-surrogate(validity only)")
+		c.Run("C01.compact_raw", Args(t), "C01.compact_raw", "C01.prop.compact_safe", "lone-surrogate/compact-raw")
 	}
 
 	// ---- 1. numbers at every position, all versions
@@ -811,7 +812,7 @@ func genC01(c *Ctx) {
 	}
 	// random texts over the bytes that steer the index arithmetic
 	steer := []byte(`"\\uuddDD88990cCfFbB-0 e.x`)
-	for i := 0; i < c.Scale(4000, 60000); i++ {
+	for i := 0; i < c.Scale(3000, 30000); i++ {
 		l := r.Intn(16)
 		m := make([]byte, l)
 		for k := range m {
@@ -827,7 +828,7 @@ func genC01(c *Ctx) {
 		}
 	}
 	// arbitrary bytes after \u: the bit trick on garbage
-	for i := 0; i < c.Scale(1500, 20000); i++ {
+	for i := 0; i < c.Scale(1200, 10000); i++ {
 		m := []byte(`"\u`)
 		for k := 0; k < 4; k++ {
 			switch r.Intn(3) {
